@@ -284,7 +284,8 @@ def bler_closed(cfg):
 # ------------------------------------------------------------------------------------------------ helper metrics
 def _helper_cfgs(tier):
     out = [Cfg("hber", f, s) for s in (["n4", "n6", "2x3"] + (["2x4"] if tier == "thorough" else [])) for f in ("float32", "int64")]
-    for shp, Bs in (("n4", (1, 2, 4)), ("n6", (1, 2, 3, 6))):
+    # multi-dimensional inputs are flattened row-major before blocking (2x3: blocks of 2 straddle the rows)
+    for shp, Bs in (("n4", (1, 2, 4)), ("n6", (1, 2, 3, 6)), ("2x3", (1, 2, 3, 6))):
         for B in Bs:
             out.append(Cfg("hbler", "int64" if B == 2 else "float32", shp, B))
     return out
